@@ -1561,3 +1561,129 @@ func runPathAsPattern(p *Program, c *Collector, a FuncRuleSpec) {
 		c.Ob(a.Props, "E7.path-as-pattern", "pathpattern:"+strings.Join(a.Funcs, ","), Discharged, a.What+": directories are listed, not matched against patterns", "", true)
 	}
 }
+
+// ---------------------------------------------------------------------------------------------
+// fresh record: a listener keeps the record under construction in a package-level pointer and starts the next one with a
+// constructor call. What is known once per unit (the package of the file) is written into the record by the callback of a rule
+// that occurs once per unit — so a record started later in the same unit never gets it, unless the function that starts it
+// copies it over: after `P = NewX()` a store to P.<field> must follow in the same function.
+type FreshRecordSpec struct {
+	Props  []string `json:"props"`
+	Funcs  []string `json:"funcs"`  // the functions that may start a record (checked); others are not looked at
+	Global string   `json:"global"` // "<rel pkg>.<var>": the pointer
+	Ctor   string   `json:"ctor"`   // function key of the constructor
+	Fields []string `json:"fields"` // fields that must be set on a record started in mid-unit
+	What   string   `json:"what"`
+}
+
+func runFreshRecord(p *Program, c *Collector, fr FreshRecordSpec) {
+	n := 0
+	for _, fn := range expandFuncs(p, c, fr.Funcs, fr.Props...) {
+		k := 0
+		for _, b := range fn.Blocks {
+			for _, in := range b.Instrs {
+				st, ok := in.(*ssa.Store)
+				if !ok {
+					continue
+				}
+				g, whole := globalOfAddr(st.Addr)
+				if g == nil || !whole || p.GlobalKey(g) != fr.Global {
+					continue
+				}
+				call, ok := st.Val.(*ssa.Call)
+				if !ok || call.Call.StaticCallee() == nil {
+					continue
+				}
+				if h := call.Call.StaticCallee(); p.FuncKey(h) != fr.Ctor {
+					// a helper that makes the record and fills it in before handing it back
+					var made *ssa.Call
+					for _, hb := range h.Blocks {
+						for _, hin := range hb.Instrs {
+							if hc, ok := hin.(*ssa.Call); ok && hc.Call.StaticCallee() != nil && p.FuncKey(hc.Call.StaticCallee()) == fr.Ctor {
+								made = hc
+							}
+						}
+					}
+					if made == nil || !p.IsOwnFunc(h) {
+						continue
+					}
+					k++
+					n++
+					key := "freshrecord:" + p.FuncKey(fn) + " #" + strconv.Itoa(k)
+					missing := ""
+					for _, f := range fr.Fields {
+						set := false
+						if made.Referrers() != nil {
+							for _, r := range *made.Referrers() {
+								if fa, ok := r.(*ssa.FieldAddr); ok {
+									if name, _ := fieldOf(fa.X.Type(), fa.Field); name == f && fa.Referrers() != nil {
+										for _, r2 := range *fa.Referrers() {
+											if st2, ok := r2.(*ssa.Store); ok && st2.Addr == ssa.Value(fa) {
+												set = true
+											}
+										}
+									}
+								}
+							}
+						}
+						if !set {
+							missing = f
+						}
+					}
+					if missing != "" {
+						c.Ob(fr.Props, "E7.fresh-record", key, Violated, fr.What+": "+shortFn(p.FuncKey(fn))+" starts the next record through "+shortFn(p.FuncKey(h))+", which does not give it its "+missing, p.InstrPos(in), false)
+					} else {
+						c.Ob(fr.Props, "E7.fresh-record", key, Discharged, "the record is started by "+shortFn(p.FuncKey(h))+", which gives it what is known once per unit", p.InstrPos(in), true)
+					}
+					continue
+				}
+				k++
+				n++
+				key := "freshrecord:" + p.FuncKey(fn) + " #" + strconv.Itoa(k)
+				missing := ""
+				for _, f := range fr.Fields {
+					set := false
+					for _, b2 := range fn.Blocks {
+						for _, in2 := range b2.Instrs {
+							st2, ok := in2.(*ssa.Store)
+							if !ok {
+								continue
+							}
+							fa, ok := st2.Addr.(*ssa.FieldAddr)
+							if !ok || loadedGlobal(fa.X) != g {
+								continue
+							}
+							if name, _ := fieldOf(fa.X.Type(), fa.Field); name != f {
+								continue
+							}
+							if b2 == b {
+								after := false
+								for _, x := range b.Instrs {
+									if x == in {
+										after = true
+									}
+									if x == in2 && after {
+										set = true
+									}
+								}
+							} else if b.Dominates(b2) {
+								set = true
+							}
+						}
+					}
+					if !set {
+						missing = f
+					}
+				}
+				if missing != "" {
+					c.Ob(fr.Props, "E7.fresh-record", key, Violated, fr.What+": "+shortFn(p.FuncKey(fn))+" starts the next record ("+p.InstrPos(in)+") and does not give it its "+missing+": that is written once per unit, by a callback that has already run", p.InstrPos(in), false)
+				} else {
+					c.Ob(fr.Props, "E7.fresh-record", key, Discharged, "the record started here is given what is known once per unit", p.InstrPos(in), true)
+				}
+			}
+		}
+	}
+	if n == 0 {
+		c.Ob(fr.Props, "E7.fresh-record", "freshrecord:"+strings.Join(fr.Funcs, ","), Undecided, fr.What+": no record is started in the named functions any more (anchor lost)", "", false)
+	}
+}
